@@ -72,7 +72,28 @@ ErrOK(r) ==
          THEN (h.opener[r.sess] = 0 => r.err)
          ELSE ~r.err
 
-PropNames == {"Identity", "ExactlyOnce", "Silence", "StaleDropped", "Render", "NotMutated", "ErrIffBad"}
+PropNames == {"Identity", "ExactlyOnce", "Silence", "StaleDropped", "Render", "NotMutated", "ErrIffBad",
+              "CausalOrder", "WholeLines", "LoginLinesOnce"}
+
+(***************************************************************************)
+(* C10, on the output FILE of the built daemon (records of kind "outs"     *)
+(* written by harness/cmd/l3 carry the file's line sequence and what       *)
+(* strace saw): the UserLogin line of a login precedes every UserAction    *)
+(* with its identity; every line is one whole JSON event written by one    *)
+(* write(2); every login has exactly one UserLogin line.                   *)
+(***************************************************************************)
+IsOuts(r) == r.k = "outs" /\ "stream" \in DOMAIN r
+CausalOrder(r) ==
+    IsOuts(r) => \A i \in 1..Len(r.stream) :
+        r.stream[i].kind = "action" =>
+            \E j \in 1..(i - 1) : r.stream[j].kind = "login" /\ r.stream[j].id = r.stream[i].id
+WholeLines(r) == IsOuts(r) => (r.torn = 0 /\ r.badwrites = 0 /\ r.writes = r.lines)
+LoginLinesOnce(r, hh) ==
+    IsOuts(r) =>
+        LET ids == {r.stream[i].id : i \in {j \in 1..Len(r.stream) : r.stream[j].kind = "login"}}
+            n == Cardinality({j \in 1..Len(r.stream) : r.stream[j].kind = "login"})
+            want == UNION {{hh.lg[p][k].id : k \in 1..Len(hh.lg[p])} : p \in Pids}
+        IN ids = want /\ n = Cardinality(want)
 
 Holds(n, hh, oo, r) ==
     CASE n = "Identity"     -> IdentityOK(hh, oo)
@@ -82,6 +103,9 @@ Holds(n, hh, oo, r) ==
       [] n = "Render"       -> RenderOK(hh, oo)
       [] n = "NotMutated"   -> ~r.mut
       [] n = "ErrIffBad"    -> ErrOK(r)
+      [] n = "CausalOrder"  -> CausalOrder(r)
+      [] n = "WholeLines"   -> WholeLines(r)
+      [] n = "LoginLinesOnce" -> LoginLinesOnce(r, hh)
 
 Failing(hh, oo, r) == {n \in PropNames \ flagged : ~Holds(n, hh, oo, r)}
 
@@ -102,7 +126,9 @@ Step ==
                /\ UNCHANGED <<h, out, obs, hist, flagged, ndiv, nsteps>>
           ELSE LET h2  == HApply(h, r)
                    o2  == out \o r.outs
-                   bad == Failing(h2, o2, r)
+                   \* L3 records are not step-by-step observations: the calls only build the history, the
+                   \* properties are evaluated on the final "outs" record
+                   bad == IF "defer" \in DOMAIN r /\ r.defer THEN {} ELSE Failing(h2, o2, r)
                    ob2 == IF CheckState THEN ObsOf(r) ELSE NoObs
                    dv  == CheckState /\ "div" \notin flagged /\ ~Conforms(r, ob2)
                IN /\ h' = h2 /\ out' = o2 /\ obs' = ob2 /\ hist' = hist
